@@ -9,6 +9,14 @@ import subprocess
 from . import REPO, VERIF
 
 NATIVE = {
+    "C11": [
+        ("C11:pickle", "histogrammar.defs.Container.__getstate__", "bounded:pickle-roundtrip",
+         "12 trees (depth <= 2) x 7 quantity kinds (lambda, lambda with default, def, string, named, cached, named+cached string) x states {empty, filled, merged} + a JSON-reloaded tree: clone equal with identical JSON, original unchanged and still fillable (fill, fill.numpy), clone and original stay equal under identical further fills"),
+    ],
+    "C16": [
+        ("C16:sharing", "histogrammar.defs.Container._checkForCrossReferences", "bounded:shared-node-detected",
+         "all trees of depth <= 2 over the 12 container classes with one aggregator object installed at two fillable positions (siblings, cousins under different parents, a node and its own descendant), first and later fills, fill and fill.numpy: ContainerException before any state change; the same trees without sharing (incl. a shared unfilled template) are never rejected"),
+    ],
     "C04": [
         ("C04:Bag.json", "histogrammar.primitives.bag.Bag.toJsonFragment", "bounded:json-roundtrip",
          "Bag of range N / S / N2 filled with up to 2 data from the critical alphabet (incl. nan, +-inf): strict dumps, reload re-serialises identically, reloaded usable under zero/copy/+/*"),
